@@ -61,31 +61,35 @@ func (z *gzipWriter) Close() error {
 }
 
 type gzipReader struct {
-	*gzip.Reader
+	zr   *gzip.Reader // nil once returned to the pool
 	pool *sync.Pool
 }
 
 // Decompress implements the Compressor interface.
 func (c *CompressorGzip) Decompress(r io.Reader) (io.Reader, error) {
-	z, ok := c.poolDecompressor.Get().(*gzipReader)
+	zr, ok := c.poolDecompressor.Get().(*gzip.Reader)
 	if !ok {
 		newZ, err := gzip.NewReader(r)
 		if err != nil {
 			return nil, err
 		}
-		return &gzipReader{Reader: newZ, pool: &c.poolDecompressor}, nil
+		return &gzipReader{zr: newZ, pool: &c.poolDecompressor}, nil
 	}
-	if err := z.Reset(r); err != nil {
-		z.pool.Put(z)
+	if err := zr.Reset(r); err != nil {
+		c.poolDecompressor.Put(zr)
 		return nil, err
 	}
-	return z, nil
+	return &gzipReader{zr: zr, pool: &c.poolDecompressor}, nil
 }
 
 func (z *gzipReader) Read(p []byte) (n int, err error) {
-	n, err = z.Reader.Read(p)
+	if z.zr == nil {
+		return 0, io.EOF // already returned to the pool: never touch it again
+	}
+	n, err = z.zr.Read(p)
 	if err == io.EOF {
-		z.pool.Put(z)
+		z.pool.Put(z.zr)
+		z.zr = nil
 	}
 	return n, err
 }
